@@ -101,6 +101,7 @@ type Monitor struct {
 }
 
 type ContractSet struct {
+	Tracked    []Guarded // `//@ tracked T`: a ghost set records every allocated T (spec: allocated(p))
 	Monitors   []Monitor
 	Guardeds   []Guarded
 	BoxInvs    []BoxInv
@@ -279,6 +280,9 @@ func (cs *ContractSet) loadFile(path, repo string) {
 			} else {
 				cs.errf("%s: monitor Type.field pred expected", at)
 			}
+		case "tracked":
+			flush()
+			cs.Tracked = append(cs.Tracked, Guarded{pkg, strings.TrimSpace(rest), at})
 		case "guarded":
 			flush()
 			cs.Guardeds = append(cs.Guardeds, Guarded{pkg, strings.TrimSpace(rest), at})
